@@ -66,7 +66,7 @@ func (w recWRF) ReadFrom(src io.Reader) (int64, error) {
 
 // operations: one letter each
 // 0..7 SetStatus(code) ; h SetHeader ; e Write("") ; w Write("ab") ; f Flush ; E http.Error(418) ; R Redirect(302) ; T Text(201,"hi") ; S Stream(203, reader without WriteTo)
-var c08Status = map[byte]int{'0': -1, '1': 0, '2': 100, '3': 304, '4': 201, '5': 404, '6': 500, '7': 204}
+var c08Status = map[byte]int{'0': -1, '1': 0, '2': 200, '3': 304, '4': 201, '5': 404, '6': 500, '7': 204}
 
 const c08Ops = "01234567hewfERTS"
 
@@ -201,9 +201,10 @@ type c08Run_ struct {
 	Ops     string       `json:"ops"`
 	I, J    int          // ops[:I] middleware before Next, ops[I:J] main handler, ops[J:] middleware after Next
 	Answers map[int]byte `json:"answers,omitempty"`
-	Redisp  bool         `json:"redispatch,omitempty"`  // the main handler ends by re-dispatching the request with HandleContext
-	K       int          `json:"k,omitempty"`           // K>0: ops[K:] run in the router's OnError hook (the main handler records an error)
-	RF      bool         `json:"reader_from,omitempty"` // the underlying writer also implements io.ReaderFrom
+	Redisp  bool         `json:"redispatch,omitempty"`    // the main handler ends by re-dispatching the request with HandleContext
+	K       int          `json:"k,omitempty"`             // K>0: ops[K:] run in the router's OnError hook (the main handler records an error)
+	RF      bool         `json:"reader_from,omitempty"`   // the underlying writer also implements io.ReaderFrom
+	Nested  bool         `json:"nested_router,omitempty"` // the main handler hands the request to a second rux router, whose handler performs the main operations
 }
 
 // one router per shard; the handlers read the run to perform from cur
@@ -244,8 +245,20 @@ func newC08Harness() *c08Harness {
 			}
 		}
 	}
+	inner := rux.New()
+	inner.GET("/x", func(c *rux.Context) {
+		run := h.cur
+		for k := run.I; k < run.J; k++ {
+			c08Apply(c, run.Ops[k])
+		}
+	})
 	h.r.GET("/x", func(c *rux.Context) {
 		run := h.cur
+		if run.Nested {
+			// a router mounted inside a handler: it receives the outer request's writer
+			inner.ServeHTTP(c.Resp, c.Req)
+			return
+		}
 		for k := run.I; k < run.J; k++ {
 			c08Apply(c, run.Ops[k])
 		}
@@ -293,7 +306,7 @@ func c08Check(h *c08Harness, run c08Run_, st *fw.Stats) *fw.Viol {
 	}
 	w, length, status, sampled, pv := h.exec(&run)
 	desc := func() string {
-		return fmt.Sprintf("ops %q (middleware before Next: %q, main handler: %q, middleware after Next: %q), write answers %v [0-7=SetStatus(-1,0,100,304,201,404,500,204) h=SetHeader e=Write(\"\") w=Write(\"ab\") f=Flush E=http.Error(418) R=Redirect(302) T=Text(201) S=Stream(203)]",
+		return fmt.Sprintf("ops %q (middleware before Next: %q, main handler: %q, middleware after Next: %q), write answers %v [0-7=SetStatus(-1,0,200,304,201,404,500,204) h=SetHeader e=Write(\"\") w=Write(\"ab\") f=Flush E=http.Error(418) R=Redirect(302) T=Text(201) S=Stream(203)]",
 			run.Ops, run.Ops[:run.I], run.Ops[run.I:run.J]+map[bool]string{true: " then HandleContext to a route writing \"cd\"", false: ""}[run.Redisp], c08Tail(run), fmtAnswers(run.Answers))
 	}
 	if pv != nil && !m.panicked {
@@ -301,6 +314,32 @@ func c08Check(h *c08Harness, run c08Run_, st *fw.Stats) *fw.Viol {
 	}
 	got := strings.Join(w.log, " ")
 	want := strings.Join(m.log, " ")
+	if run.Nested {
+		// the inner router's end-of-chain commit may legitimately select a status on the outer writer, so only the
+		// shape of the log is compared: exactly one WriteHeader, before any body byte or flush, same body
+		nWH, first := 0, -1
+		for i, e := range w.log {
+			if strings.HasPrefix(e, "WH:") {
+				nWH++
+				if first < 0 {
+					first = i
+				}
+			}
+		}
+		if nWH != 1 || first != 0 {
+			sig := "writer:header-committed-twice"
+			if nWH == 0 {
+				sig = "writer:no-header-commit"
+			} else if nWH == 1 {
+				sig = "writer:body-before-header"
+			}
+			return &fw.Viol{Sig: sig, Msg: fmt.Sprintf("%s (main operations performed by a router mounted inside the main handler): underlying writer saw [%s]", desc(), got)}
+		}
+		if string(w.body) != m.body {
+			return &fw.Viol{Sig: "writer:body", Msg: fmt.Sprintf("%s (nested router): body %q, expected %q", desc(), w.body, m.body)}
+		}
+		return nil
+	}
 	if got != want {
 		sig := "writer:log"
 		nWH := 0
@@ -405,6 +444,9 @@ func c08RunCase(c c08Case, st *fw.Stats) []fw.Viol {
 			// ... and with the main handler re-dispatching at its end (no operations after Next)
 			try1(c08Run_{Ops: ops, I: 0, J: d, Redisp: true})
 			try1(c08Run_{Ops: ops, I: d / 2, J: d, Redisp: true})
+			// ... with the main handler's operations performed by a second router mounted inside it
+			try1(c08Run_{Ops: ops, I: 0, J: d, Nested: true})
+			try1(c08Run_{Ops: ops, I: d / 2, J: d, Nested: true})
 			// ... with the tail of the sequence performed by the OnError hook (the main handler records an error)
 			if d >= 1 {
 				try1(c08Run_{Ops: ops, I: 0, J: d - 1, K: d - 1})
@@ -480,7 +522,7 @@ func c08Gen(tier string, emit func(c08Case)) {
 var c08Spec = fw.Spec[c08Case]{
 	ID:    "C08",
 	Level: "model_checking",
-	Rule: "depth-bounded exhaustive search: ALL operation sequences of length <=4 (thorough 6) over 16 operations {SetStatus(-1,0,100,304,201,404,500,204), SetHeader, Write(\"\"), Write(\"ab\"), Flush, http.Error(418), Redirect(302), Text(201), Stream(203)} x every split of the sequence over middleware-before-Next / main handler / middleware-after-Next (also with the tail run by the OnError hook, with a HandleContext re-dispatch, and on an underlying writer implementing io.ReaderFrom) x every assignment of <=2 non-default answers (short write, error) to the underlying writes (every split up to length 3 (4), 4 representative splits plus OnError / re-dispatch / ReaderFrom variants at length 4 (5), <=1 fault at length 6 in the thorough tier); " +
+	Rule: "depth-bounded exhaustive search: ALL operation sequences of length <=4 (thorough 6) over 16 operations {SetStatus(-1,0,200,304,201,404,500,204), SetHeader, Write(\"\"), Write(\"ab\"), Flush, http.Error(418), Redirect(302), Text(201), Stream(203)} x every split of the sequence over middleware-before-Next / main handler / middleware-after-Next (also with the tail run by the OnError hook, with a HandleContext re-dispatch, and on an underlying writer implementing io.ReaderFrom) x every assignment of <=2 non-default answers (short write, error) to the underlying writes (every split up to length 3 (4), 4 representative splits plus OnError / re-dispatch / ReaderFrom variants at length 4 (5), <=1 fault at length 6 in the thorough tier); " +
 		"oracle = 20-line writer specification compared with the complete event log of a recording ResponseWriter+Flusher; non-trivial = sequence containing a write, flush or helper",
 	Assume: []string{"Text (WriteBytes) is documented to panic when the underlying write fails; after such a panic only the log so far is compared", "Length() is compared once a header was committed"},
 	Bounds: func(tier string) map[string]any {
